@@ -160,7 +160,10 @@ RefSegs  == {<<"0">>, <<"7">>, <<"12">>, <<"1", "2">>, <<"07">>, <<"00">>, <<"0"
 VerSegs  == {<< >>, <<":">>, <<":", "-">>, <<":", "0">>, <<":", "1">>, <<":", "3">>, <<":", "65535">>, <<":", "65536">>,
              <<":", "65537">>, <<":", "-", "3">>, <<":", "+", "3">>, <<":", "07">>, <<":", "1", "2">>, <<":", "zzz">>,
              <<":", "3", ":", "1">>, <<":", "3", "/", "1">>, <<":", " ", "3">>, <<":", "-", "-">>, <<":", "3", ".", "0">>,
-             <<":", "1099511627776">>, <<":", "99999999999999999999">>, <<":", "-", ":">>}
+             <<":", "1099511627776">>, <<":", "99999999999999999999">>, <<":", "-", ":">>,
+             \* a further field after a complete version part ("more than one ':'")
+             <<":", "3", ":", "-">>, <<":", "-", ":", "-">>, <<":", "-", ":", "3">>, <<":", "3", ":">>, <<":", ":", "-">>,
+             <<":", ":", "3">>, <<":", "65535", ":", "-">>}
 Templates == {k \o <<"/">> \o r \o v : k \in KindSegs, r \in RefSegs, v \in VerSegs}
 
 \* quick: 9 core tokens, up to 4; thorough: up to 5, and up to 4 with the blank as a tenth token
